@@ -24,7 +24,8 @@ mod verif_c15 {
     }
 
     fn any_meta_u() -> (MC, CP, TC, u8, u8, u8) {
-        let m: u8 = kani::any(); let p: u8 = kani::any(); let t: u8 = kani::any();
+        let in_m: u8 = kani::any(); let in_p: u8 = kani::any(); let in_t: u8 = kani::any();
+        let (m, p, t) = (in_m, in_p, in_t);
         kani::assume(m < 15 && p < 14 && t < 19);
         (MC_ALL[m as usize], CP_ALL[p as usize], TC_ALL[t as usize], m, p, t)
     }
